@@ -1,6 +1,7 @@
 import TwistedProps.C32.Message
 import TwistedProps.C32.TruncMessage
 import TwistedProps.C32.Total
+import TwistedProps.C32.Offsets
 /-!
 C32 — DNS messages round-trip through the wire format.
 
@@ -21,6 +22,16 @@ encoder returns.  Clause by clause:
    targets an offset before the start of the label run it is written in, so pointer chains
    strictly descend and the `visited` check of `Name.decode` never fires.
    (`name_roundtrip`, `field_rt`, `fields_good`, `rr_rt`, `rrs_rt`, `queries_rt` in `C32/*.lean` are the layers.)
+   *Names across the 14-bit limit of a compression pointer* (`C32/Offsets.lean`): none of the theorems
+   bounds the message size or the offset of a name, so they hold for a name that starts below offset
+   2^14 and ends beyond it.  What makes that case work is spelled out: `name_records_suffixes_at_their_own_offsets`
+   — every entry `Name.encode` adds is *suffix i of the name ↦ the offset of label i*, and only when
+   that offset (not the offset where the name starts) is below 2^14; `suffix_beyond_2_14_not_recorded`
+   — for a suffix that starts at or beyond 2^14 the dictionary answers as before, so a later use
+   of it is never a pointer to this occurrence; `fresh_name_records_exactly` — for a name with no
+   suffix in the dictionary the new dictionary is given exactly (nothing below 2^14 is forgotten either);
+   `two_names_round_trip` — a later name written with the dictionary an earlier one left behind
+   (e.g. a suffix of a straddling name) is read back, whatever the offsets.
    *`toStr` does return something* — `encode_succeeds`: for every `wfMsg` none of whose RDATA can
    reach 64 KiB (`rdataMax`, the RDATA's size with names written in full); nothing is needed about
    compression offsets (`Name.encode` records an offset only when it is below 2^14).
@@ -486,6 +497,42 @@ theorem unrepresentable_name_is_refused (ls : List Bytes) (hp : ProperLabels ls)
     encodeName (joinDots ls) off comp d = .error .value :=
   unrepresentable_name_refused ls hp l hl hlong off comp d hd
 
+/-- **What `Name.encode` records** (re-stated from `C32/Offsets.lean`): the dictionary after a name of
+    1..63-byte labels written at `off` is the old one with new entries in front; each new entry is
+    suffix `i` of the name ↦ `off + labelOff ls i`, the offset of label `i` itself, and it is there
+    only when *that* offset is below 2^14 — a name that starts below 2^14 and continues beyond it
+    has only its first suffixes recorded. -/
+theorem name_records_suffixes_at_their_own_offsets (ls : List Bytes) (hwf : WfLabels ls) (off : Nat) (comp : Bool)
+    (d : Dict) (B : Bytes) (d' : Dict) (henc : encodeName (joinDots ls) off comp d = .ok (B, d')) :
+    ∃ pre, d' = pre ++ d ∧ ∀ k t, (k, t) ∈ pre →
+      comp = true ∧ ∃ i, i < ls.length ∧ k = joinDots (ls.drop i) ∧ t = off + labelOff ls i ∧ t < 16384 :=
+  recorded_entries ls hwf off comp d B d' henc
+
+/-- a suffix of a name that starts at or beyond offset 2^14 is not recorded, wherever the name itself starts -/
+theorem suffix_beyond_2_14_not_recorded (ls : List Bytes) (hwf : WfLabels ls) (off : Nat) (comp : Bool) (d : Dict)
+    (B : Bytes) (d' : Dict) (henc : encodeName (joinDots ls) off comp d = .ok (B, d'))
+    (i : Nat) (hi : i < ls.length) (hbig : 16384 ≤ off + labelOff ls i) :
+    d'.lookup (joinDots (ls.drop i)) = d.lookup (joinDots (ls.drop i)) :=
+  straddling_suffix_not_recorded ls hwf off comp d B d' henc i hi hbig
+
+/-- a name none of whose suffixes is in the dictionary is written in full and the dictionary gains
+    exactly the suffixes whose own offsets are below 2^14 (`recorded`; `recorded_complete`: none is forgotten) -/
+theorem fresh_name_records_exactly (ls : List Bytes) (hwf : WfLabels ls) (off : Nat) (d : Dict)
+    (hfresh : ∀ i, i < ls.length → d.lookup (joinDots (ls.drop i)) = none) :
+    encodeName (joinDots ls) off true d = .ok (fullName ls, recorded ls off d) ∧
+    (∀ i, i < ls.length → off + labelOff ls i < 16384 →
+      (joinDots (ls.drop i), off + labelOff ls i) ∈ recorded ls off d) :=
+  ⟨fresh_name_encoding ls hwf off d hfresh, fun i hi h => recorded_complete ls off d i hi h⟩
+
+/-- two names, one dictionary, any offsets (below, across or beyond 2^14): both are read back -/
+theorem two_names_round_trip (ls1 ls2 : List Bytes) (hwf1 : WfLabels ls1) (hwf2 : WfLabels ls2)
+    (off1 off2 : Nat) (c1 c2 : Bool) (d d1 d2 : Dict) (B1 B2 M : Bytes)
+    (h1 : encodeName (joinDots ls1) off1 c1 d = .ok (B1, d1)) (h2 : encodeName (joinDots ls2) off2 c2 d1 = .ok (B2, d2))
+    (hlater : off1 + B1.length ≤ off2) (hp1 : Placed M off1 B1) (hp2 : Placed M off2 B2) (hd : DictOK M off1 d) :
+    decodeName M off1 = .ok (joinDots ls1, off1 + B1.length) ∧
+    decodeName M off2 = .ok (joinDots ls2, off2 + B2.length) ∧ DictOK M (off2 + B2.length) d2 :=
+  later_use_round_trip ls1 ls2 hwf1 hwf2 off1 off2 c1 c2 d d1 d2 B1 B2 M h1 h2 hlater hp1 hp2 hd
+
 /-! ### non-vacuity: a concrete message with shared suffixes, a case variant and five record types -/
 
 /-- ASCII text as bytes -/
@@ -564,6 +611,44 @@ example : ∃ out, encodeMsg exMsg = .ok out ∧ decodeMsg out = .ok { exMsg wit
 
 example : encodeRR ⟨[], 10, 1, 0, some ⟨false, [.bytes (List.replicate 65536 0)]⟩⟩ 12 [] = .error .struct :=
   oversize_rdata_struct_error _ (Nat.le_of_eq List.length_replicate.symm) 12 []
+
+/-! ### non-vacuity across offset 2^14: a name that starts at 16379 and whose second label starts at 16384 -/
+
+instance (ls : List Bytes) : Decidable (WfLabels ls) := by unfold WfLabels WfLabel; exact inferInstance
+
+def exStraddler : List Bytes := [bs "aaaa", bs "straddle", bs "example"]
+
+example : joinDots exStraddler = bs "aaaa.straddle.example" := by decide
+
+/-- only the whole name (offset 16379) is recorded; `straddle.example` (16384) and `example` (16393) are not -/
+example : encodeName (joinDots exStraddler) 16379 true [] = .ok (fullName exStraddler, [(joinDots exStraddler, 16379)]) :=
+  (fresh_name_records_exactly exStraddler (by decide) 16379 [] (fun _ _ => rfl)).1
+
+/-- … so `straddle.example`, used again later, is written in full -/
+example : encodeName (joinDots (exStraddler.drop 1)) 16420 true [(joinDots exStraddler, 16379)] =
+    .ok (fullName (exStraddler.drop 1), [(joinDots exStraddler, 16379)]) :=
+  (fresh_name_records_exactly (exStraddler.drop 1) (by decide) 16420 _ (by decide)).1
+
+example : List.lookup (joinDots (exStraddler.drop 1)) [(joinDots exStraddler, 16379)] = none :=
+  suffix_beyond_2_14_not_recorded exStraddler (by decide) 16379 true [] _ _
+    (fresh_name_records_exactly exStraddler (by decide) 16379 [] (fun _ _ => rfl)).1 1 (by decide) (by decide)
+
+/-- a 16.4 KiB message: a NULL record of 16354 bytes puts `aaaa.straddle.example` at offset 16379; then
+    `straddle.example` and `mail.straddle.example` (inside an MX, owner in another case) are used -/
+def exBig : Msg :=
+  { id := 4660, answer := 1, opCode := 0, recDes := 0, recAv := 0, auth := 0, rCode := 0, trunc := 0, maxSize := 0,
+    authenticData := 0, checkingDisabled := 0, queries := [],
+    answers := [⟨bs "f", 10, 1, 60, some ⟨false, [.bytes (List.replicate 16354 0)]⟩⟩,
+                ⟨bs "aaaa.straddle.example", 1, 1, 60, some ⟨false, [.bytes [10, 0, 0, 1]]⟩⟩,
+                ⟨bs "straddle.example", 1, 1, 60, some ⟨false, [.bytes [10, 0, 0, 2]]⟩⟩,
+                ⟨bs "bbbb.Straddle.example", 15, 1, 60, some ⟨false, [.nat 10, .bytes (bs "mail.straddle.example")]⟩⟩],
+    authority := [], additional := [] }
+
+set_option maxRecDepth 100000 in
+/-- `message_round_trip` applies to it -/
+example : ∃ out, encodeMsg exBig = .ok out ∧ decodeMsg out = .ok exBig := by
+  obtain ⟨body, out, _, he, hrt, _⟩ := message_round_trip exBig (by decide) (by decide)
+  exact ⟨out, he, hrt (Or.inl rfl)⟩
 
 /-! ### `_EDNSMessage`: the size limit is not honoured (known finding `edns-maxsize-ignored`) -/
 
